@@ -12,10 +12,12 @@ pub struct C02;
 /// ELF files placed on disk for segment-based attribution: (file name, image base, LOAD segments
 /// `(vaddr, file offset, file size, executable)`): easy case A (svma = file offset), easy case B (non-zero
 /// base) and the hard case of svma_file_range.rs (an SVMA gap between the segments that is elided in the file).
-const ELFS: [(&str, u64, &[(u64, u64, u64, bool)]); 3] = [
+const ELFS: [(&str, u64, &[(u64, u64, u64, bool)]); 4] = [
     ("easy_a.so", 0, &[(0, 0, 0x6000, true)]),
     ("easy_b.so", 0x40000, &[(0x40000, 0, 0x6000, true)]),
     ("gap.so", 0, &[(0, 0, 0x2000, false), (0x3000, 0x2000, 0x3000, true)]),
+    // the first LOAD segment starts one page into the file: a mapping from file offset 0 starts before it
+    ("late.so", 0x1000, &[(0x1000, 0x1000, 0x3000, true)]),
 ];
 
 fn elf_dir() -> std::path::PathBuf {
@@ -170,6 +172,133 @@ fn jit_fixed_cases() -> Vec<Case> {
     v
 }
 
+/// Families of work package convD1: MMAP2 records the converter does not queue, 32-bit relative-address
+/// arithmetic, a mapping that starts before its segment, out-of-order delivery.
+fn d1_fixed_cases() -> Vec<Case> {
+    let mut v = Vec::new();
+    let lib = |n: &str| format!("/nonexistent-verif/lib/{n}");
+    let mmap = |pid: u32, addr: u64, len: u64, pgoff: u64, path: &str, t: u64| Rec::Mmap2 { pid, tid: pid, addr, len, pgoff, exec: true, path: path.to_string(), t };
+    let sample = |pid: u32, tid: u32, t: u64, ip: u64, rets: &[u64]| {
+        let mut chain = vec![CTX_USER, ip];
+        chain.extend_from_slice(rets);
+        Rec::Sample { pid, tid, t, kernel: false, period: 1_000_000, ip, chain }
+    };
+    let comm = |pid: u32, t: u64| Rec::Comm { pid, tid: pid, name: "app".to_string(), exec: false, t };
+    let mk = |name: &str, ref_time: u64, recs: Vec<Rec>| Case { name: name.to_string(), ops: History { ref_time, recs, files: elf_decls(), ..Default::default() }.to_ops() };
+    // --- MMAP2 records that name no library: `//anon`, `[heap]`, `[stack]`, `[vvar]` over a live library
+    // (candidate finding C02-special-path-not-evicting: the library stays attributed)
+    if finding_enabled(FINDING_SPECIAL) {
+        for (k, sp) in SPECIAL_PATHS.iter().enumerate() {
+            let recs = vec![
+                comm(100, 800),
+                mmap(100, 0x40_0000, 0x2000, 0, &lib("libfoo.so"), 900),
+                sample(100, 100, 1000, 0x40_0100, &[0x40_1000]),
+                mmap(100, 0x40_0000, 0x2000, 0, sp, 1500),
+                sample(100, 100, 2000, 0x40_0100, &[0x40_1000]),
+            ];
+            v.push(mk(&format!("special-path-over-live-lib-{k}"), 1000, recs));
+        }
+        // partially covering, and over nothing
+        let recs = vec![
+            comm(100, 800),
+            mmap(100, 0x40_0000, 0x4000, 0, &lib("libfoo.so"), 900),
+            mmap(100, 0x40_1000, 0x1000, 0, "//anon", 1500),
+            mmap(100, 0x50_0000, 0x1000, 0, "[heap]", 1600),
+            sample(100, 100, 2000, 0x40_0100, &[0x40_1100, 0x40_2100, 0x50_0010]),
+        ];
+        v.push(mk("special-path-partial", 2000, recs));
+    }
+    // a special path before the first sample creates no process entry; a non-executable one is ignored like
+    // every non-executable mapping (never hit by a sample: judged)
+    let recs = vec![mmap(300, 0x60_0000, 0x1000, 0, "//anon", 500), comm(100, 800), mmap(100, 0x40_0000, 0x2000, 0, &lib("libfoo.so"), 900), sample(100, 100, 1000, 0x40_0100, &[0x40_1000]), mmap(100, 0x70_0000, 0x1000, 0, "[stack]", 1500), sample(100, 100, 2000, 0x40_0100, &[0x40_1000])];
+    v.push(mk("special-path-unsampled", 1000, recs));
+    // --- a file on disk whose segments do not relate to the mapped file range: `compute_base_avma` = None,
+    // the record is ignored and the previous mapping stays
+    let easy_a = elf_decls()[0].path.clone();
+    let gap = elf_decls()[2].path.clone();
+    let late = elf_decls()[3].path.clone();
+    let recs = vec![
+        comm(100, 800),
+        mmap(100, 0x40_0000, 0x2000, 0, &lib("libfoo.so"), 900),
+        sample(100, 100, 1000, 0x40_0100, &[0x40_1000]),
+        mmap(100, 0x40_0000, 0x1000, 0x10_0000, &easy_a, 1500),
+        sample(100, 100, 2000, 0x40_0100, &[0x40_1000]),
+        mmap(100, 0x40_0000, 0x1000, 0x1000, &easy_a, 2500),
+        sample(100, 100, 3000, 0x40_0100, &[0x40_1000]),
+    ];
+    v.push(mk("file-range-unrelated-to-segments", 1000, recs));
+    // --- a mapping that starts before its segment in the file (the `file_offset >` branch of
+    // compute_vma_bias_impl): gap.so's text segment is at file offset 0x2000, stated address 0x3000
+    let recs = vec![
+        comm(100, 800),
+        mmap(100, 0x7f00_0000_0000, 0x5000, 0x1000, &gap, 900),
+        sample(100, 100, 1000, 0x7f00_0000_0000, &[0x7f00_0000_0fff, 0x7f00_0000_1000, 0x7f00_0000_1001, 0x7f00_0000_3fff, 0x7f00_0000_4fff, 0x7f00_0000_5000]),
+        mmap(100, 0x7f10_0000_0000, 0x4000, 0x2000, &gap, 1500),
+        mmap(100, 0x7f20_0000_0000, 0x4000, 0x1000, &late, 1600),
+        sample(100, 100, 2000, 0x7f10_0000_0010, &[0x7f10_0000_2000, 0x7f20_0000_0010, 0x7f20_0000_2fff]),
+    ];
+    v.push(mk("mapping-before-segment", 1000, recs));
+    if finding_enabled(FINDING_MMAP_ARITH) {
+        // … and before the image base: `mapping_start_avma - base_avma` underflows (debug build: panic)
+        v.push(mk("mapping-before-image-base", 1000, vec![comm(100, 800), mmap(100, 0x41_c000, 0x5000, 0, &late, 900), sample(100, 100, 1000, 0x41_d010, &[])]));
+    }
+    // --- 32-bit arithmetic of relative addresses
+    // page offset just below 2^32: the u32 addition of convert_address overflows (debug build: panic)
+    v.push(mk("pgoff-near-2p32-overflow", 1000, vec![comm(100, 800), mmap(100, 0x1_0000_0000, 0x2000, 0xffff_f000, &lib("big.so"), 900), sample(100, 100, 1000, 0x1_0000_1800, &[])]));
+    // the same mapping sampled only below the wrap: converted
+    v.push(mk("pgoff-near-2p32-ok", 1000, vec![comm(100, 800), mmap(100, 0x1_0000_0000, 0x2000, 0xffff_f000, &lib("big.so"), 900), sample(100, 100, 1000, 0x1_0000_0800, &[0x1_0000_0fff, 0x1_0000_1000])]));
+    // page offset above 2^32: `as u32` truncates
+    v.push(mk("pgoff-above-2p32", 1000, vec![comm(100, 800), mmap(100, 0x2_0000_0000, 0x2000, 0x1_0000_1000, &lib("big.so"), 900), sample(100, 100, 1000, 0x2_0000_0800, &[0x2_0000_1801])]));
+    // a mapping longer than 4 GiB: the offset into the mapping is truncated
+    v.push(mk(
+        "mapping-over-4gib",
+        1000,
+        vec![comm(100, 800), mmap(100, 0x10_0000_0000, 0x1_8000_0000, 0, &lib("huge.so"), 900), sample(100, 100, 1000, 0x10_0000_0100, &[0x10_ffff_ffff, 0x11_0000_0000, 0x11_0000_0101, 0x11_7fff_ffff, 0x11_8000_0001])],
+    ));
+    // --- out-of-order delivery (a file that breaks perf's round contract; simpleperf emits back-dated MMAP2
+    // records, process_threads.rs:95-96). Candidate finding C02-backdated-record.
+    // a back-dated MMAP2 record alone in its queue, delivered after later-stamped records of other kinds: it
+    // keeps its own timestamp (`last_timestamp` is overwritten by every record that has a time, import/perf.rs:
+    // 200-207) and applies to the sample stamped 2000 that was delivered before it. Green on the unchanged tree.
+    let h = history_from_file_rounds(
+        1000,
+        vec![
+            vec![comm(100, 800), sample(100, 100, 2000, 0x50_0100, &[0x50_0200])],
+            vec![comm(100, 5000)],
+            vec![comm(100, 6000)],
+            vec![mmap(100, 0x50_0000, 0x2000, 0, "/nonexistent-verif/opt/tool", 1000), comm(100, 7000)],
+            vec![sample(100, 100, 8000, 0x50_0100, &[])],
+        ],
+    );
+    v.push(Case { name: "backdated-mmap-alone".to_string(), ops: h.to_ops() });
+    if finding_enabled(FINDING_BACKDATED) {
+        // a mapping announced at 1000 but delivered after one stamped 5000 is queued behind it and never
+        // applied to the sample at 2000
+        let h = history_from_file_rounds(
+            1000,
+            vec![
+                vec![comm(100, 800), mmap(100, 0x40_0000, 0x2000, 0, &lib("libfoo.so"), 950), sample(100, 100, 3000, 0x40_0100, &[])],
+                vec![mmap(100, 0x60_0000, 0x2000, 0, &lib("libbar.so.1"), 5000)],
+                vec![comm(100, 6000)],
+                vec![mmap(100, 0x50_0000, 0x2000, 0, "/nonexistent-verif/opt/tool", 1000), sample(100, 101, 2000, 0x50_0100, &[])],
+            ],
+        );
+        v.push(Case { name: "backdated-mmap".to_string(), ops: h.to_ops() });
+        // a sample stamped 2000 delivered after a sample stamped 3000 of the same process: the mapping
+        // stamped 2500 has already been applied
+        let h = history_from_file_rounds(
+            1000,
+            vec![
+                vec![comm(100, 800), mmap(100, 0x40_0000, 0x2000, 0, &lib("libfoo.so"), 900), mmap(100, 0x50_0000, 0x2000, 0, &lib("libbar.so.1"), 2500), sample(100, 100, 3000, 0x50_0100, &[0x40_0100])],
+                vec![comm(100, 3100)],
+                vec![sample(100, 101, 2000, 0x50_0100, &[0x40_0100]), sample(100, 100, 4000, 0x50_0100, &[])],
+            ],
+        );
+        v.push(Case { name: "backdated-sample".to_string(), ops: h.to_ops() });
+    }
+    v
+}
+
 impl Prop for C02 {
     fn id(&self) -> &'static str {
         "C02"
@@ -181,7 +310,9 @@ impl Prop for C02 {
         }
     }
     fn fixed_cases(&self, _tier: Tier) -> Vec<Case> {
-        jit_fixed_cases()
+        let mut v = jit_fixed_cases();
+        v.extend(d1_fixed_cases());
+        v
     }
     fn generate(&self, rng: &mut Rng, tier: Tier, _index: u64) -> Vec<String> {
         let shape = Shape {
@@ -195,7 +326,15 @@ impl Prop for C02 {
             // three fifths of the cases have perf map files for some of the pids
             jit: true,
         };
-        gen_history(rng, &shape).to_ops()
+        let mut h = gen_history(rng, &shape);
+        // a tenth of the histories: out-of-order delivery. Back-dated lifecycle records always (attribution
+        // follows the delivery order for them); back-dated samples and MMAP2 records show the candidate finding
+        // C02-backdated-record and are generated once it is recorded
+        if rng.chance(1, 10) {
+            let all = finding_enabled(FINDING_BACKDATED);
+            out_of_order(&mut h, rng, OooKinds { samples: all, mmap2: all, lifecycle: true, zero: false });
+        }
+        h.to_ops()
     }
     fn setup(&self, _tier: Tier) {
         write_elfs();
@@ -216,6 +355,10 @@ impl Prop for C02 {
             let n = h.recs.iter().filter(|r| matches!(r, Rec::Mmap2 { path, .. } if h.files.iter().any(|f| &f.path == path))).count();
             stats.add("mmap2_of_file_on_disk", n as u64);
         }
+        if !h.layout.is_empty() {
+            stats.bump("explicit_layout");
+        }
+        stats.add("mmap2_special_path", h.recs.iter().filter(|r| matches!(r, Rec::Mmap2 { path, .. } if SPECIAL_PATHS.contains(&path.as_str()))).count() as u64);
         let dir = work_tmp("C02");
         let tag = format!("c{:016x}", fnv1a(ops));
         let out = import_and_render(&h, Proj::C02, &dir, &tag, stats);
